@@ -113,7 +113,7 @@ def stepEntry {β κ : Type} (F : LoopFacts) (handler : State β → Nat → κ 
 structure SM (β : Type) where
   published : State β
   file : Option (State β)
-deriving Repr
+deriving Repr, DecidableEq
 
 def runEntries {β κ : Type} (F : LoopFacts) (handler : State β → Nat → κ → Proposal β) (valid : State β → Bool)
     (current : State β) (es : List (Entry κ)) (acc : State β × List Result) : State β × List Result :=
